@@ -34,6 +34,11 @@ theorem assignMany_frame (l : List (Nat × Val)) : ∀ (j : Mon),
     obtain ⟨b1, b2, b3, b4, b5⟩ := ih (j.assign p.1 p.2)
     exact ⟨b1.trans a1, b2.trans a2, b3.trans a3, b4.trans a4, b5.trans a5⟩
 
+theorem lapse_frame (j : Mon) (t : Int) :
+    (j.lapse t).ok = j.ok ∧ (j.lapse t).now = j.now ∧ (j.lapse t).target = j.target
+    ∧ (j.lapse t).lastTrig = j.lastTrig ∧ (j.lapse t).rate = j.rate := by
+  unfold Mon.lapse; split <;> exact ⟨rfl, rfl, rfl, rfl, rfl⟩
+
 /-- the clock facts the monitor maintains on an accepted prefix, for one variable x and a time t1 at or after
     which x is known to have triggered -/
 structure TrigInv (rate : List Nat) (x : Nat) (t1 : Int) (j : Mon) : Prop where
@@ -67,14 +72,18 @@ theorem step_ok_mono (j : Mon) (it : Item) (h : (j.step it).ok = true) : j.ok = 
       | none => rw [ha] at h'; simp [fail] at h'
       | some o => rw [ha] at h'; exact (onResp_frame j o st sid g).2.2.2.2 h'
     | notify sid seq t url body =>
-      have h' : (j.onObs (.notify sid seq t url body)).ok = true := h
-      simp only [Mon.onObs] at h'
-      cases hs : j.subs[sid]? with
+      have h' : ((j.lapse t).notifyAt sid seq t url body).ok = true := h
+      rw [← (lapse_frame j t).1]
+      generalize j.lapse t = j0 at h' ⊢
+      simp only [Mon.notifyAt] at h'
+      cases hs : j0.subs[sid]? with
       | none => rw [hs] at h'; simp [fail] at h'
       | some s => rw [hs] at h'; simp only [Bool.and_eq_true] at h'; exact h'.1.1
     | trig x t =>
-      have h' : (j.onObs (.trig x t)).ok = true := h
-      simp only [Mon.onObs, Bool.and_eq_true] at h'
+      have h' : ((j.lapse t).trigAt x t).ok = true := h
+      rw [← (lapse_frame j t).1]
+      generalize j.lapse t = j0 at h' ⊢
+      simp only [Mon.trigAt, Bool.and_eq_true] at h'
       exact h'.1.1
     | ret sid => exact h
     | exc sid => exact h
@@ -88,6 +97,12 @@ theorem close_ok_mono (j : Mon) (h : (j.close).ok = true) : j.ok = true := by
   have : (j.ok && quiescentOk { j with now := j.target }) = true := h
   simp only [Bool.and_eq_true] at this
   exact this.1
+
+theorem TrigInv.lapse {rate : List Nat} {x : Nat} {t1 : Int} {j : Mon} (hi : TrigInv rate x t1 j) (t : Int) :
+    TrigInv rate x t1 (j.lapse t) := by
+  obtain ⟨_, l2, l3, l4, l5⟩ := lapse_frame j t
+  obtain ⟨u, hu, hu1, hu2⟩ := hi.last
+  exact ⟨by rw [l2, l3]; exact hi.nt, by rw [l5]; exact hi.rate, ⟨u, by rw [l4]; exact hu, hu1, by rw [l2]; exact hu2⟩⟩
 
 /-- one accepted step keeps the clock facts -/
 theorem TrigInv.step {rate : List Nat} {x : Nat} {t1 : Int} {j : Mon} (hi : TrigInv rate x t1 j) (it : Item)
@@ -133,25 +148,32 @@ theorem TrigInv.step {rate : List Nat} {x : Nat} {t1 : Int} {j : Mon} (hi : Trig
           ⟨u, by show (j.onResp o st sid g).lastTrig[x]? = _; rw [a3]; exact hu, hu1,
             by show u ≤ (j.onResp o st sid g).now; rw [a1]; exact hu2⟩⟩
     | notify sid seq t url body =>
-      have h' : (j.onObs (.notify sid seq t url body)).ok = true := h
-      show TrigInv rate x t1 (j.onObs (.notify sid seq t url body))
-      simp only [Mon.onObs] at h' ⊢
-      cases hs : j.subs[sid]? with
-      | none => exact ⟨hi.nt, hi.rate, ⟨u, hu, hu1, hu2⟩⟩
+      have h' : ((j.lapse t).notifyAt sid seq t url body).ok = true := h
+      show TrigInv rate x t1 ((j.lapse t).notifyAt sid seq t url body)
+      have hi0 : TrigInv rate x t1 (j.lapse t) := hi.lapse t
+      generalize j.lapse t = j0 at h' hi0 ⊢
+      obtain ⟨u, hu, hu1, hu2⟩ := hi0.last
+      simp only [Mon.notifyAt] at h' ⊢
+      cases hs : j0.subs[sid]? with
+      | none => exact ⟨hi0.nt, hi0.rate, ⟨u, hu, hu1, hu2⟩⟩
       | some s =>
         rw [hs] at h'
         simp only [Bool.and_eq_true, timeOk, decide_eq_true_eq] at h'
         obtain ⟨⟨_, ht1, ht2⟩, _⟩ := h'
-        exact ⟨ht2, hi.rate, ⟨u, hu, hu1, by show u ≤ t; omega⟩⟩
+        exact ⟨ht2, hi0.rate, ⟨u, hu, hu1, by show u ≤ t; omega⟩⟩
     | trig y t =>
-      have h' : (j.onObs (.trig y t)).ok = true := h
-      simp only [Mon.onObs, Bool.and_eq_true, timeOk, decide_eq_true_eq] at h'
+      have h' : ((j.lapse t).trigAt y t).ok = true := h
+      show TrigInv rate x t1 ((j.lapse t).trigAt y t)
+      have hi0 : TrigInv rate x t1 (j.lapse t) := hi.lapse t
+      generalize j.lapse t = j0 at h' hi0 ⊢
+      obtain ⟨u, hu, hu1, hu2⟩ := hi0.last
+      simp only [Mon.trigAt, Bool.and_eq_true, timeOk, decide_eq_true_eq] at h'
       obtain ⟨⟨_, ht1, ht2⟩, _⟩ := h'
-      refine ⟨ht2, hi.rate, ?_⟩
-      show ∃ u, (j.lastTrig.set y (some t))[x]? = some (some u) ∧ t1 ≤ u ∧ u ≤ t
+      refine ⟨ht2, hi0.rate, ?_⟩
+      show ∃ u, (j0.lastTrig.set y (some t))[x]? = some (some u) ∧ t1 ≤ u ∧ u ≤ t
       by_cases hyx : y = x
       · subst hyx
-        have hlt : y < j.lastTrig.length := (List.getElem?_eq_some_iff.mp hu).1
+        have hlt : y < j0.lastTrig.length := (List.getElem?_eq_some_iff.mp hu).1
         exact ⟨t, by rw [List.getElem?_set_self hlt], by omega, Int.le_refl _⟩
       · exact ⟨u, by rw [List.getElem?_set_ne hyx]; exact hu, hu1, by omega⟩
     | ret sid => exact hi
@@ -202,19 +224,28 @@ theorem ClockInv.step {rate : List Nat} {j : Mon} (hi : ClockInv rate j) (it : I
         exact ⟨by show (j.onResp o st sid g).now ≤ (j.onResp o st sid g).target; rw [a1, a2]; exact hi.nt,
           by show (j.onResp o st sid g).rate = rate; rw [a4]; exact hi.rate⟩
     | notify sid seq t url body =>
-      have h' : (j.onObs (.notify sid seq t url body)).ok = true := h
-      show ClockInv rate (j.onObs (.notify sid seq t url body))
-      simp only [Mon.onObs] at h' ⊢
-      cases hs : j.subs[sid]? with
-      | none => exact ⟨hi.nt, hi.rate⟩
+      have h' : ((j.lapse t).notifyAt sid seq t url body).ok = true := h
+      show ClockInv rate ((j.lapse t).notifyAt sid seq t url body)
+      have hi0 : ClockInv rate (j.lapse t) := by
+        obtain ⟨_, l2, l3, _, l5⟩ := lapse_frame j t
+        exact ⟨by rw [l2, l3]; exact hi.nt, by rw [l5]; exact hi.rate⟩
+      generalize j.lapse t = j0 at h' hi0 ⊢
+      simp only [Mon.notifyAt] at h' ⊢
+      cases hs : j0.subs[sid]? with
+      | none => exact ⟨hi0.nt, hi0.rate⟩
       | some s =>
         rw [hs] at h'
         simp only [Bool.and_eq_true, timeOk, decide_eq_true_eq] at h'
-        exact ⟨h'.1.2.2, hi.rate⟩
+        exact ⟨h'.1.2.2, hi0.rate⟩
     | trig y t =>
-      have h' : (j.onObs (.trig y t)).ok = true := h
-      simp only [Mon.onObs, Bool.and_eq_true, timeOk, decide_eq_true_eq] at h'
-      exact ⟨h'.1.2.2, hi.rate⟩
+      have h' : ((j.lapse t).trigAt y t).ok = true := h
+      show ClockInv rate ((j.lapse t).trigAt y t)
+      have hi0 : ClockInv rate (j.lapse t) := by
+        obtain ⟨_, l2, l3, _, l5⟩ := lapse_frame j t
+        exact ⟨by rw [l2, l3]; exact hi.nt, by rw [l5]; exact hi.rate⟩
+      generalize j.lapse t = j0 at h' hi0 ⊢
+      simp only [Mon.trigAt, Bool.and_eq_true, timeOk, decide_eq_true_eq] at h'
+      exact ⟨h'.1.2.2, hi0.rate⟩
     | ret sid => exact hi
     | exc sid => exact hi
 
@@ -271,6 +302,12 @@ theorem Dead.assignMany {k : Nat} (l : List (Nat × Val)) : ∀ {j : Mon}, Dead 
   | nil => intro j h; exact h
   | cons p l ih => intro j h; exact ih (h.assign p.1 p.2)
 
+theorem Dead.lapse {k : Nat} {j : Mon} (h : Dead k j) (t : Int) : Dead k (j.lapse t) := by
+  unfold Mon.lapse
+  split
+  · exact dead_map k (fun s => { s with credit := 0 }) (fun _ => rfl) _ h
+  · exact h
+
 /-- one accepted step keeps an ended subscription ended; in particular the step is not a NOTIFY to it -/
 theorem Dead.step {k : Nat} {j : Mon} (h : Dead k j) (it : Item) (hok : (j.step it).ok = true) :
     Dead k (j.step it) ∧ ∀ seq t url body, it ≠ .obs (.notify k seq t url body) := by
@@ -297,24 +334,25 @@ theorem Dead.step {k : Nat} {j : Mon} (h : Dead k j) (it : Item) (hok : (j.step 
       | none => exact h
       | some o => exact h.onResp o st sid g
     | notify sid seq t url body =>
-      have h' : (j.onObs (.notify sid seq t url body)).ok = true := hok
-      simp only [Mon.onObs] at h'
+      have h' : ((j.lapse t).notifyAt sid seq t url body).ok = true := hok
+      have h0 : Dead k (j.lapse t) := h.lapse t
+      show Dead k ((j.lapse t).notifyAt sid seq t url body) ∧ _
+      generalize j.lapse t = j0 at h' h0 ⊢
+      simp only [Mon.notifyAt] at h' ⊢
       by_cases e : sid = k
       · subst e
-        obtain ⟨s, hs, ha⟩ := h
+        obtain ⟨s, hs, ha⟩ := h0
         rw [hs] at h'
         simp [ha] at h'
       · refine ⟨?_, fun _ _ _ _ e' => by cases e'; exact e rfl⟩
-        show Dead k (j.onObs (.notify sid seq t url body))
-        simp only [Mon.onObs]
-        cases hs : j.subs[sid]? with
-        | none => exact h
+        cases hs : j0.subs[sid]? with
+        | none => exact h0
         | some s =>
-          obtain ⟨s0, hs0, ha0⟩ := h
-          exact ⟨s0, by show (j.subs.set sid _)[k]? = _; rw [List.getElem?_set_ne e]; exact hs0, ha0⟩
+          obtain ⟨s0, hs0, ha0⟩ := h0
+          exact ⟨s0, by show (j0.subs.set sid _)[k]? = _; rw [List.getElem?_set_ne e]; exact hs0, ha0⟩
     | trig x t =>
       refine ⟨?_, fun _ _ _ _ e => by cases e⟩
-      exact dead_map k (fun s => { s with credit := s.credit + 1 }) (fun _ => rfl) _ h
+      exact dead_map k (fun s => { s with credit := s.credit + 1 }) (fun _ => rfl) _ (h.lapse t)
     | ret sid => exact ⟨h, fun _ _ _ _ e => by cases e⟩
     | exc sid => exact ⟨h, fun _ _ _ _ e => by cases e⟩
 
